@@ -11,6 +11,7 @@ pub mod c07;
 pub mod c11;
 pub mod c12;
 pub mod c13;
+pub mod c16;
 pub mod c17;
 pub mod c19;
 pub mod c08;
@@ -32,6 +33,7 @@ pub fn dispatch(cfg: &Config) -> i32 {
         "C13" => c13::run(cfg),
         "C14" => roundtrip::run_c14(cfg),
         "C15" => roundtrip::run_c15(cfg),
+        "C16" => c16::run(cfg),
         "C17" => c17::run(cfg),
         "C19" => c19::run(cfg),
         "C08" => c08::run(cfg),
